@@ -642,7 +642,12 @@ def _emit_storage_event(env: Env, a: Actor, op: str, cls: str, path: str, args: 
         if (cls == "hint" and op in ("read_file", "read_file_with_etag")) or (cls == "hint" and op == "exists" and res is False) \
                 or (op == "list_files"):
             if rctx.get("slot") is not None and rctx["slot"] in s.trace:
-                s.trace.remove(rctx["slot"])
+                if op == "list_files":
+                    # the pointer was read earlier and found unusable; the scan happens NOW: two linearisation points
+                    # (_current_version_info is not atomic) - the earlier one stays in the trace as its own event
+                    rctx["slot"]["k"] = "HintUnusable"
+                else:
+                    s.trace.remove(rctx["slot"])
             rctx["slot"] = s.reserve({"k": "Resolve", "a": a.name})
         return
     if op in ("write_file", "write_file_cas"):
